@@ -7,8 +7,9 @@
     the injection point, predicts other observables than the implementation showed.  [violates]:
     the non-interference predicate [Pb] is false on the OBSERVED pair of runs. *)
 From Coq Require Import List Bool Arith ZArith.
+From Coq Require String.
 Import ListNotations.
-Require Import Nib.C09.Model Nib.C09.Spec.
+Require Import Nib.C09.Model Nib.C09.Spec Nib.C09.ModelBuf.
 Local Open Scope Z_scope.
 
 (** scenario accounts *)
@@ -210,12 +211,73 @@ Record route_obs := mkRoute { r_hash_eq : bool; r_supply_eq : bool; r_events_eq 
     check state (Proofs.generic_branch_isolation: whatever the steps of the other branches are, the deliver branch
     evolves as alone), so the model predicts equality of every DeliverTx response and every app hash.  The three
     booleans are then: all app hashes / all (code, gas, data) / all events of the delivered transactions. *)
-Inductive anycase := CEvm (c : case) | CRoute (o : route_obs) | CSim (o : route_obs).
+
+(** fourth driver: simulations of the SAME message kinds as the delivered transaction (MsgCreateFunToken from a bank coin,
+    MsgConvertCoinToEvm, EVM contract creation, …) served at store-read yield points INSIDE its DeliverTx.
+    [i_deliver] / [i_sims]: metadata ids of the coins whose ERC20 the delivered / the simulated transactions deploy
+    through Keeper.deployERC20ForBankCoin (ModelBuf.create_script); [i_dense]: a simulation was served at EVERY traced
+    read of the DeliverTx calls and all of them succeeded.  The model is run on the schedule "after every step of the deliver thread a
+    fresh request thread runs to completion"; for sparse injections under [Spare] the position of the requests relative
+    to the append is unknown and the model is silent (under [Exact] every schedule is clean). *)
+Record infl_case := mkInfl { i_dense : bool; i_deliver : list nat; i_sims : list nat; i_obs : route_obs }.
+
+Definition infl_script (l : list nat) : list bstep := flat_map create_script l.
+
+Fixpoint dense_sched (n : nat) (k : nat) (qlen : nat) : list btid :=
+  match n with
+  | O => []
+  | S n' => 0%nat :: repeat k qlen ++ dense_sched n' (S k) qlen
+  end.
+
+Fixpoint natlist_eqb (a b : list nat) : bool :=
+  match a, b with
+  | [], [] => true
+  | x :: a', y :: b' => Nat.eqb x y && natlist_eqb a' b'
+  | _, _ => false
+  end.
+
+Definition infl_predict_clean (a : alloc) (c : infl_case) : bool :=
+  let d := infl_script (i_deliver c) in
+  let q := infl_script (i_sims c) in
+  let ths := d :: repeat q (length d) in
+  let sched := dense_sched (length d) 1 (length q) in
+  natlist_eqb (bused (bthr (brun a sched (binit ths)) 0%nat)) (bused (bthr (brun a (bdeliver_only sched) (binit ths)) 0%nat)).
 
 Definition route_clean (o : route_obs) : bool := r_hash_eq o && r_supply_eq o && r_events_eq o.
 
-Definition mismatch_any (m : mode) (c : anycase) : bool :=
-  match c with CEvm c => mismatch_in m c | CRoute o | CSim o => negb (route_clean o) end.
+Definition mismatch_infl (a : alloc) (c : infl_case) : bool :=
+  match a, i_dense c with
+  | Spare, false => false
+  | _, _ => negb (Bool.eqb (infl_predict_clean a c) (route_clean (i_obs c)))
+  end.
+
+(** the `slices` case: observed spare capacity (cap - len) of the package-level byte slices shared by block execution and
+    requests.  [bases]: the appended-to ones according to the generated inventory (Sites.appended_bases buffer_sites):
+    each of them must have been observed.  [Exact] predicts no spare capacity anywhere; [Spare] predicts some on an
+    appended-to slice. *)
+Definition no_spare (l : list (String.string * nat)) : bool := forallb (fun e => Nat.eqb (snd e) 0%nat) l.
+
+Definition mismatch_slices (a : alloc) (bases : list String.string) (l : list (String.string * nat)) : bool :=
+  negb (forallb (fun b => existsb (fun e => String.eqb b (fst e)) l) bases) ||
+  match a with
+  | Exact => negb (no_spare l)
+  | Spare => no_spare (filter (fun e => existsb (String.eqb (fst e)) bases) l)
+  end.
+
+Inductive anycase := CEvm (c : case) | CRoute (o : route_obs) | CSim (o : route_obs) | CInfl (c : infl_case) | CSlices (l : list (String.string * nat)).
+
+Definition mismatch_any (m : mode) (a : alloc) (bases : list String.string) (c : anycase) : bool :=
+  match c with
+  | CEvm c => mismatch_in m c
+  | CRoute o | CSim o => negb (route_clean o)
+  | CInfl c => mismatch_infl a c
+  | CSlices l => mismatch_slices a bases l
+  end.
 
 Definition violates_any (c : anycase) : bool :=
-  match c with CEvm c => violates c | CRoute o | CSim o => negb (route_clean o) end.
+  match c with
+  | CEvm c => violates c
+  | CRoute o | CSim o => negb (route_clean o)
+  | CInfl c => negb (route_clean (i_obs c))
+  | CSlices _ => false
+  end.
